@@ -20,6 +20,8 @@ pub struct Heap {
     heap: Vec<VCell>,
     heap_map: gc::Map,
     symbol_table: HashMap<String, usize>,
+    #[cfg(feature = "verif")]
+    verif_pretend_full: bool,
 }
 
 impl Heap {
@@ -34,6 +36,8 @@ impl Heap {
             free_list: (0..chunk_size).rev().collect(),
             heap_map: gc::Map::new(chunk_size),
             symbol_table: HashMap::new(),
+            #[cfg(feature = "verif")]
+            verif_pretend_full: false,
         }
     }
 
@@ -495,6 +499,10 @@ impl Heap {
     ///   free list.
     /// * State::Used - Mark the vcell as allocated.
     pub fn sweep(&mut self) {
+        #[cfg(feature = "verif")]
+        {
+            self.verif_pretend_full = false;
+        }
         let before = self.free_list.len();
         for it in 0..self.heap.len() {
             match self.heap_map.get(it) {
@@ -528,6 +536,10 @@ impl Heap {
     ///
     /// The number of nodes in used.
     pub fn used_size(&self) -> usize {
+        #[cfg(feature = "verif")]
+        if self.verif_pretend_full {
+            return self.capacity();
+        }
         self.capacity() - self.free_size()
     }
 
@@ -547,6 +559,30 @@ impl Heap {
                 self.heap.get(it).unwrap_or(&VCell::Undefined)
             );
         }
+    }
+}
+
+/// Verification hooks: read-only views of the heap (feature `verif`).
+#[cfg(feature = "verif")]
+impl Heap {
+    pub fn verif_cells(&self) -> &[VCell] {
+        &self.heap
+    }
+
+    pub fn verif_state(&self, index: usize) -> Option<State> {
+        self.heap_map.get(index)
+    }
+
+    pub fn verif_free_list(&self) -> &[usize] {
+        &self.free_list
+    }
+
+    pub fn verif_symbol_table(&self) -> &HashMap<String, usize> {
+        &self.symbol_table
+    }
+
+    pub(crate) fn verif_set_pretend_full(&mut self, on: bool) {
+        self.verif_pretend_full = on;
     }
 }
 
